@@ -417,6 +417,10 @@ func (m *tokenBucketWrapper) SetLimit(acquireResult *AcquireResult) bool {
 		if token > m.reserve {
 			token = m.reserve
 		}
+		// a negative grant must not be subtracted: repeated, it wraps the counter around
+		if token < 0 {
+			token = 0
+		}
 		atomic.AddInt32(&m.tokens, token)
 	}
 
